@@ -308,8 +308,36 @@ func ruleGuardAcct(p *Prog, r *Report) {
 			}
 		}
 	})
+	// the accounting must not depend on the error of the read: bytes delivered together with an error are consumed too
+	errX := tupleExtract(rd, 1)
+	condBad := ""
+	if errX != nil {
+		eachInstr(f, func(b *ssa.BasicBlock, _ int, in ssa.Instruction) {
+			isAcct := false
+			switch x := in.(type) {
+			case *ssa.Call:
+				if sc := x.Call.StaticCallee(); sc != nil && fnName(sc) == "isobmff.(*box).adjust" {
+					isAcct = true
+				}
+			case *ssa.Store:
+				if fa, ok := x.Addr.(*ssa.FieldAddr); ok && fieldName(fa.X.Type(), fa.Field) == "offset" {
+					isAcct = true
+				}
+			}
+			if !isAcct {
+				return
+			}
+			for _, cd := range condsAt(b) {
+				if bo, ok := cd.V.(*ssa.BinOp); ok && (bo.X == ssa.Value(errX) || bo.Y == ssa.Value(errX)) {
+					condBad = "the accounting at " + p.posStr(instrPos(in)) + " only runs when the read returned no error: bytes delivered together with io.EOF are consumed but not charged"
+				}
+			}
+		})
+	}
 	akey := "isobmff.(*box).Read | charges the count actually read"
 	switch {
+	case condBad != "":
+		r.Bad("ACCT", akey, p.posStr(f.Pos()), condBad)
 	case adjBad != "":
 		r.Bad("ACCT", akey, p.posStr(f.Pos()), adjBad+": after a short read the box believes more (or less) was consumed than was")
 	case !adjOK:
